@@ -127,7 +127,13 @@ ConstProgs == <<
   <<Const("k", I(4)), Def("f", Fn0(<<Ret(Bin("+", Id("k"), I(1)))>>)), Ret(C0(Id("f")))>>,
   <<Def("f", Fn0(<<ConstG(<<"p", "q">>, Id("iota")), Ret(Arr(<<Id("p"), Id("q")>>))>>)), ConstG(<<"a">>, Id("iota")), Ret(Arr(<<C0(Id("f")), Id("a")>>))>>,
   <<Const("k", I(1)), If(T, <<Const("k", I(2)), Log(Id("k"))>>, <<>>), Ret(Id("k"))>>,
-  <<ConstG(<<"a", "b", "c">>, Bin("+", S("s"), Id("iota"))), Ret(Arr(<<Id("a"), Id("c")>>))>>
+  <<ConstG(<<"a", "b", "c">>, Bin("+", S("s"), Id("iota"))), Ret(Arr(<<Id("a"), Id("c")>>))>>,
+  \* a constant used in an expression, then shadowed by a block-local / loop / catch name used in an expression
+  <<Const("x", I(10)), Def("a", Bin("+", Id("x"), I(10))), If(T, <<Def("x", I(40)), Log(Bin("+", Id("x"), I(10)))>>, <<>>), Ret(Arr(<<Id("a"), Bin("*", Id("x"), I(2))>>))>>,
+  <<Const("x", I(10)), Def("a", Bin("*", Id("x"), I(2))), For(<<Def("x", I(0))>>, Bin("<", Id("x"), I(2)), <<Inc("x")>>, <<Log(Bin("+", Id("x"), I(100)))>>), Ret(Bin("+", Id("a"), Id("x")))>>,
+  <<Const("x", I(7)), Def("a", Un("-", Id("x"))), ForIn("_", "x", Arr(<<I(1), I(2)>>), <<Log(Bin("*", Id("x"), I(3)))>>),
+    Try(<<Thr(S("t"))>>, TRUE, "x", <<Log(C1(Id("isError"), Id("x")))>>, FALSE, <<>>), Ret(Arr(<<Id("a"), Bin("+", Id("x"), I(1))>>))>>,
+  <<Def("f", Fn0(<<Const("k", I(3)), Def("a", Bin("+", Id("k"), I(1))), If(T, <<Def("k", S("s")), Ret(Arr(<<Id("a"), Bin("+", Id("k"), S("!"))>>))>>, <<>>), Ret(I(0))>>)), Ret(C0(Id("f")))>>
 >>
 
 (* --------------------------------------------------------------- loops *)
@@ -279,9 +285,15 @@ ModMain(site) ==
     [] site = 7 -> <<Global(<<"cbcall">>), Def("f", Fn(<<"v">>, FALSE, <<Def("m", Import("m1")), AsgS(Id("m"), "c", Bin("+", Sel(Id("m"), "c"), Id("v"))), Ret(Sel(Id("m"), "c"))>>)),
                      Def("a", Call(Id("cbcall"), <<Id("f"), I(1)>>)), Def("b", Call(Id("cbcall"), <<Id("f"), I(2)>>)),
                      Ret(Arr(<<Id("a"), Id("b"), Sel(Import("m1"), "c"), C1(Id("f"), I(4))>>))>>
+    \* an import expression that is skipped at run time, followed by one of the same module in the same scope
+    [] site = 9 -> <<If(F, <<Def("x", Import("m1"))>>, <<>>), Def("m", Import("m1")), AsgS(Id("m"), "c", I(3)), Ret(Arr(<<Sel(Import("m1"), "c"), Sel(Id("m"), "n")>>))>>
+    [] site = 10 -> <<Def("a", Bin("&&", F, Import("m1"))), Def("b", Import("m1")), Def("f", Fn0(<<Def("z", Cond(F, Import("m2"), I(0))), Ret(Sel(Import("m2"), "n"))>>)),
+                      Ret(Arr(<<Id("a"), Sel(Id("b"), "n"), C0(Id("f"))>>))>>
+    [] site = 11 -> <<ForIn("_", "v", Arr(<<>>), <<Def("x", Import("m1"))>>), Try(<<Thr(S("t")), ExprS(Import("m2"))>>, TRUE, "e", <<>>, FALSE, <<>>),
+                      Ret(Arr(<<Sel(Import("m1"), "n"), Sel(Import("m2"), "n")>>))>>
     [] site = 8 -> <<Global(<<"cbcall", "cbcall2">>), Def("f", Fn0(<<Ret(Import("m2"))>>)), Def("x", Call(Id("cbcall2"), <<Id("f")>>)), AsgS(Id("x"), "c", I(8)),
                      Def("g", Fn0(<<Ret(Sel(Import("m2"), "c"))>>)), Ret(Arr(<<Call(Id("cbcall"), <<Id("g")>>), Sel(Import("m2"), "c"), Sel(Import("m1"), "n")>>))>>
-ModIdx == [f : {"mod"}, g : 1..9, site : 1..8]
+ModIdx == [f : {"mod"}, g : 1..9, site : 1..11]
 HostGlobals == [x \in {"cbcall", "cbcall2"} |-> VBi(x)]
 ModProg(c) == [P0(ModMain(c.site)) EXCEPT !.mods = ModsOf(c.g), !.globals = IF c.site \in {7, 8} THEN HostGlobals ELSE <<>>]
 \* static verdict: does the compiler have to refuse (cycle / unknown module reachable from an import expression of the main script)
@@ -290,7 +302,7 @@ Reach(g, todo, seen) == IF todo = {} THEN seen
                         ELSE LET x == CHOOSE y \in todo : TRUE
                                  d == IF x \in {"m1", "m2", "m3"} THEN SeqSet(GraphDeps(g)[CASE x = "m1" -> 1 [] x = "m2" -> 2 [] x = "m3" -> 3]) ELSE {}
                              IN Reach(g, (todo \cup d) \ (seen \cup {x}), seen \cup {x})
-MainImports(site) == CASE site \in {1, 2, 7} -> {"m1"} [] site = 8 -> {"m1", "m2"} [] site = 3 -> {"m1", "m2"} [] site = 4 -> {"m2"} [] site = 5 -> {"m1", "m2", "m3"} [] site = 6 -> {"m1", "m2"}
+MainImports(site) == CASE site \in {1, 2, 7, 9} -> {"m1"} [] site \in {8, 10, 11} -> {"m1", "m2"} [] site = 3 -> {"m1", "m2"} [] site = 4 -> {"m2"} [] site = 5 -> {"m1", "m2", "m3"} [] site = 6 -> {"m1", "m2"}
 ModRefused(c) == LET r == Reach(c.g, MainImports(c.site), {}) IN
                  \/ "nope" \in r
                  \/ (c.g = 5 /\ {"m1", "m2"} \cap r # {}) \/ (c.g = 6 /\ "m1" \in r) \/ (c.g = 9 /\ {"m1", "m2", "m3"} \cap r # {})
